@@ -160,6 +160,24 @@ func init() {
 				c.Done()
 				c14Group(x, items, pairs, 0)
 			}},
+			{Name: "grouping-nothing", Quick: []int{1}, ShardDepth: -1, Run: func(c *explore.Chooser, x *explore.Ctx, _ int) {
+				// a grouped expression that selects no item: no item produces a key, and a literal key sees no items
+				cases := []struct {
+					prog string
+					want interface{}
+				}{
+					{`a[g = "zz"]{g: v}`, map[string]interface{}{}},
+					{`a[g = "zz"]{$string(id): v}`, map[string]interface{}{}},
+					{`nothing{"lit": $count($)}`, map[string]interface{}{"lit": 0.0}},
+					{`a[id > 9]{"lit": $count($), g: v}`, map[string]interface{}{"lit": 0.0}},
+					{`a[id > 9]{g: $count($)}`, map[string]interface{}{}},
+					{`$count($keys(a[id > 9]{g: v}))`, 0.0},
+				}
+				k := cases[c.Choose(len(cases))]
+				c.Done()
+				doc := map[string]interface{}{"a": []interface{}{map[string]interface{}{"id": 0.0, "g": "p", "v": 1.0}, map[string]interface{}{"id": 1.0, "g": "q", "v": 2.0}}}
+				c14Unordered(x, k.prog, doc, k.want, false)
+			}},
 			{Name: "partition-facts", Quick: sizes(0, 4), Thorough: sizes(0, 5), ShardDepth: 4, Run: func(c *explore.Chooser, x *explore.Ctx, n int) {
 				// every item appears in exactly one group, in input order (ids make it observable)
 				gs := []string{"p", "q", "r", "s"}
